@@ -325,9 +325,13 @@ def static_checks(x: Extraction, findings):
 # ---------------------------------------------------------------------------------------------------------
 
 class Product:
-    def __init__(self, x: Extraction, A, D, P, Q, producers=1, timeout_ms=120000, sampler=False):
+    def __init__(self, x: Extraction, A, D, P, Q, producers=1, timeout_ms=120000, sampler=False, rendezvous=False):
         self.x, self.A, self.D, self.P, self.Q, self.timeout_ms = x, A, D, P, Q, timeout_ms
         self.sampler = sampler
+        # capacity 0: crossbeam's zero-capacity flavour. try_send succeeds iff a receiver is parked in recv (it hands
+        # the message over directly); recv first registers the receiver as parked, then waits for a hand-over;
+        # is_empty() and is_full() are constantly true, len() is 0.
+        self.rendezvous = rendezvous
         self.nprod = producers
         self.bounded = x.cap_mode == 'bounded'
         self.qmax = (Q if self.bounded else A) + 2
@@ -405,7 +409,9 @@ class Product:
         I = self.bv
         cons = []
         cap = z3.BitVec('capacity', self.W)
-        if self.bounded:
+        if self.rendezvous:
+            cons += [cap == 0]
+        elif self.bounded:
             cons += [z3.UGE(cap, 1), z3.ULE(cap, self.Q)]
         atom_names = sorted(x.init['atomics'])
         arc_labels = sorted(x.init['arc'])
@@ -449,6 +455,8 @@ class Product:
                 st['sres_bad'] = z3.BoolVal(False)
             st['ended:' + sl] = z3.BoolVal(False)
             st['panicked:' + sl] = z3.BoolVal(False)
+            if sl.startswith('W'):
+                st['wait:' + sl] = z3.BoolVal(False)
         self.states = [st]
         E = []
         for sl in self.slots:
@@ -469,6 +477,10 @@ class Product:
                     if dst not in reach:
                         reach.add(dst)
                         todo.append(dst)
+            if self.rendezvous and sl.startswith('W'):
+                for ni in sorted(reach):
+                    if nodes[ni]['op'] is not None and nodes[ni]['op'][0] == 'recv':
+                        E.append((sl, ni, ni, {'kind': 'recv_register', 'out': 'parked'}, 'parked'))
         self.E = E
         FW = max(8, (len(E) + 2).bit_length() + 1)
         self.FW = FW
@@ -526,9 +538,9 @@ class Product:
         def footprint(sl, o):
             k = o['kind']
             r = w = 0
-            if k in ('try_send', 'send_blocking', 'recv'):
+            if k in ('try_send', 'send_blocking', 'recv', 'recv_register'):
                 w |= bit('chan')
-                if k != 'recv' and o['payload'][0] == 'some':
+                if k in ('try_send', 'send_blocking') and o['payload'][0] == 'some':
                     w |= bit('log')          # accepted sequence
             elif k in ('is_empty', 'is_full', 'chan_len'):
                 r |= bit('chan')
@@ -642,7 +654,32 @@ class Product:
             upd['clen'] = cur['clen'] - 1
 
         is_id = lambda e: z3.ULT(e, 0xF0)
-        if k in ('try_send', 'send_blocking'):
+        wslots = [w for w in self.slots if w.startswith('W')]
+        if self.rendezvous and k == 'send_blocking':
+            raise Unsupported('blocking send on a zero-capacity channel has no model')
+        if self.rendezvous and k == 'recv_register':
+            g = z3.And(z3.Not(cur['wait:' + sl]), cur['clen'] == 0)
+            upd['wait:' + sl] = z3.BoolVal(True)
+        elif self.rendezvous and k == 'try_send':
+            entry = mid if o['payload'][0] == 'some' else I(self.NONE_MARK)
+            parked = z3.And(cur['clen'] == 0, z3.Or(*[z3.And(cur['wait:' + w], cur['active:' + w], z3.Not(cur['ended:' + w])) for w in wslots]))
+            if out == 'ok':
+                g = parked
+                push(entry)
+                for w in wslots:
+                    upd['wait:' + w] = z3.BoolVal(False)
+                if o['payload'][0] == 'some':
+                    upd['ac'] = [z3.If(cur['an'] == i, entry, cur['ac'][i]) for i in range(A)]
+                    upd['an'] = cur['an'] + 1
+            elif out == 'full':
+                g = z3.Not(parked)
+            else:
+                g = z3.BoolVal(False)
+        elif self.rendezvous and k in ('is_empty', 'is_full'):
+            g = z3.BoolVal(out == 'true')
+        elif self.rendezvous and k == 'chan_len':
+            upd['reg:%s:%s' % (sl, o['reg'].decl().name())] = I(0)
+        elif k in ('try_send', 'send_blocking'):
             entry = mid if o['payload'][0] == 'some' else I(self.NONE_MARK)
             room = z3.ULT(cur['clen'], eff_cap)
             if k == 'send_blocking' or out == 'ok':
@@ -798,18 +835,38 @@ class Product:
         sub = [n for n in x.init['atomics'] if n.endswith('submitted')]
         dr = [n for n in x.init['atomics'] if n.endswith('drained')]
         if sub and dr:
-            out[('C15', 'submitted-counts-ok-emits')] = at_term(lambda stt: stt['at:' + sub[0]] != stt['oks'])
-            out[('C15', 'drained-counts-deliveries')] = at_term(lambda stt: stt['at:' + dr[0]] != stt['dn'])
-            out[('C15', 'ok-emits-are-accepted')] = at_term(lambda stt: stt['oks'] != stt['an'])
+            # the counters are observable only through a live handle
+            out[('C15', 'submitted-counts-ok-emits')] = at_term(lambda stt: z3.And(z3.UGE(stt['nh'], 1), stt['at:' + sub[0]] != stt['oks']))
+            out[('C15', 'drained-counts-deliveries')] = at_term(lambda stt: z3.And(z3.UGE(stt['nh'], 1), stt['at:' + dr[0]] != stt['dn']))
+            out[('C15', 'ok-emits-are-accepted')] = at_term(lambda stt: z3.And(z3.UGE(stt['nh'], 1), stt['oks'] != stt['an']))
         if x.handler:
             out[('C16', 'handler-once-per-error')] = at_term(lambda stt: stt['hcalls'] != stt['errs'])
         else:
             out[('C16', 'no-handler-configured')] = any_t(lambda t: z3.UGT(S[t]['hcalls'], 0))
-        out[('C10', 'capacity-never-exceeded')] = any_t(lambda t: z3.And(z3.BoolVal(self.bounded), z3.UGT(S[t]['clen'], self.cap)))
+        if not self.rendezvous:
+            out[('C10', 'capacity-never-exceeded')] = any_t(lambda t: z3.And(z3.BoolVal(self.bounded), z3.UGT(S[t]['clen'], self.cap)))
         if self.sampler:
             out = {('C15', 'queued-never-panics'): any_t(lambda t: S[t]['panicked:S0']),
                    ('C15', 'queued-in-range'): any_t(lambda t: S[t]['sres_bad'])}
         return out
+
+    def marker_lost_before_park(self):
+        """Capacity 0 only: the stop marker's try_send fails at a moment when a live worker has passed its stop check
+        and stands at recv() without having parked yet (nothing handed over). This is the history of the known
+        finding 'cap0-marker-lost-before-park'; every other way of violating a clause is outside it."""
+        S = self.states
+        hits = []
+        wslots = [w for w in self.slots if w.startswith('W')]
+        recv_nodes = [i for i, n in enumerate(self.worker_nodes) if n['op'] is not None and n['op'][0] == 'recv']
+        for t in range(self.D):
+            fired = [self.fire[t] == j for j, (sl, src, dst, o, out) in enumerate(self.E)
+                     if o['kind'] == 'try_send' and o['payload'][0] == 'none' and (out[1] if isinstance(out, tuple) else out) == 'full']
+            if not fired:
+                continue
+            about_to_park = z3.Or(*[z3.And(S[t]['active:' + w], z3.Not(S[t]['ended:' + w]), z3.Not(S[t]['wait:' + w]), S[t]['clen'] == 0,
+                                           z3.Or(*[S[t]['pc:' + w] == self.bv(n) for n in recv_nodes])) for w in wslots])
+            hits.append(z3.And(z3.Or(*fired), about_to_park))
+        return z3.Or(*hits) if hits else z3.BoolVal(False)
 
     def check(self, cond, extra=()):
         """One non-incremental SAT query (bit-blasting) over the whole unrolling."""
@@ -859,6 +916,8 @@ def scenario_from_trace(steps, capv, handler):
                 if out[i]['do'] == 'emit':
                     accepted_idx.append(i)
                     break
+        if st['kind'] == 'recv_register':
+            out.append({'do': 'park'})
         if st['kind'] == 'recv' and st['out'] == 'some':
             cur_emit = accepted_idx[nrecv] if nrecv < len(accepted_idx) else None
             nrecv += 1
